@@ -26,3 +26,31 @@ CONFIGS["C17"] = dict(
     assumptions=["SQLite only (the PostgreSQL code paths are not exercised)", "a failed COMMIT of kind error/busy/full is modelled as rolled back by the engine; kind commit-open leaves it open"],
     required_probes=["reference_success", "reference_refused", "fault_placements", "commit-open@commit"],
 )
+
+ROUTER_EXPORT = ("props/common/router_export.go", "internal/router/zz_verifsim_export.go")
+
+CONFIGS["C43"] = dict(
+    prop="C43", engine="grants-hist", pkg="internal/server/tables", harness="C43",
+    level="exploration",
+    level_text="seeded histories of grant / revoke (per user, DSN, table, permission subset) by the administrator interleaved "
+               "with row reads, inserts, updates, deletes and table drops by three users on a restricted and an unrestricted "
+               "DSN, table re-creation, cache purges and time advances past cache lifetimes, through the real router, table "
+               "routes and handlers, dsns service, permission store (SQLite) and caches; each response and the table contents "
+               "before/after are compared with a model of the grant set: a non-administrator's request on the restricted DSN "
+               "may succeed or change data only with the matching grant; administrators, unrestricted DSNs and granted "
+               "requests are not refused; grants never carry over to another user, DSN or table (incl. a dropped and "
+               "re-created table).",
+    technique="deterministic simulation: fake clock + seeded histories through the real REST stack against a grant-set model",
+    rewrite=dict(dirs=ALL_INTERNAL),
+    extra_files=[CACHES_EXPORT, ROUTER_EXPORT],
+    race="none",
+    quick=dict(runs=600, per_proc=40, budget_s=240),
+    thorough=dict(runs=40000, per_proc=400, budget_s=1500),
+    det_seeds=16,
+    rule="histories of 10-34 operations over users {admin,u1,u2} x DSNs {restricted, unrestricted} x tables {t1,t2}; "
+         "non-trivial = >=4 operations; distinct = distinct history hash",
+    real=["router.ServeHTTP + authentication", "tables.AddStaticRoutes handlers (rows, table delete/create, permissions)", "dsns file service (in memory)", "permission store via resources on SQLite", "caches"],
+    stubbed=["user store: in-memory AuthService (existing seam) with MinCost bcrypt hashes", "time: synctest fake clock", "sync: scheduling shim"],
+    assumptions=["every user holds DSN-level read/write access, so that table grants are the deciding gate", "the permission store is available throughout (no faults in this engine, per the statement)"],
+    required_probes=["requests_that_must_be_refused", "requests_allowed_by_a_grant", "grants", "tables_dropped"],
+)
